@@ -42,4 +42,6 @@ def run(tier, seed):
     codec_trust(chk)
     chk.assumptions += ["attribute values range over None, str and int (what the wire and the driver supply); children are instances of the vector's child class"]
     chk.min_obligations = 100
+    chk.standin_on_out_of_reach("native equality corpus", "codec.eq_corpus", {}, always=True,
+                                bound_text="set*Vector of every kind with 0-3 children: identical structure, every single-field / single-child / order / count difference, different kinds")
     return chk.finish()
